@@ -27,11 +27,17 @@ func init() {
 var c17NameLens = []int{1, 20, 200}
 
 func c17Entry(i, sizeClass int) p9p.Dir {
-	return p9p.Dir{
+	d := p9p.Dir{
 		Type: uint16(i), Dev: uint32(i) * 3, Qid: p9p.Qid{Type: p9p.QType(i % 2 * 0x80), Version: uint32(i), Path: uint64(1000 + i)},
 		Mode: 0644, AccessTime: time.Unix(int64(100+i), 0).UTC(), ModTime: time.Unix(int64(200+i), 0).UTC(), Length: uint64(i * 11),
 		Name: fmt.Sprintf("%d%s", i, strings.Repeat("n", c17NameLens[sizeClass]-1)), UID: "u", GID: "gg", MUID: "",
 	}
+	if sizeClass == 0 {
+		// the smallest entries a server can produce: a one-character name and
+		// no owner strings (50 bytes; 49 is the floor with an empty name)
+		d.UID, d.GID = "", ""
+	}
+	return d
 }
 
 func c17Listing(classes []int) []p9p.Dir {
